@@ -282,40 +282,51 @@ impl History {
     }
 }
 
-pub fn histories(tier: Tier) -> Vec<History> {
-    let a = op_alphabet();
-    let mut v = Vec::new();
-    let full_len = tier.pick(2, 3);
-    let long_len = tier.pick(3, 4);
-    // every history up to full_len with every probe mask
-    let mut seqs: Vec<Vec<Op>> = vec![vec![]];
-    let mut layer: Vec<Vec<Op>> = vec![vec![]];
-    for _ in 0..long_len {
-        let mut next = Vec::new();
-        for s in &layer {
-            for o in &a {
-                let mut t = s.clone();
-                t.push(o.clone());
-                next.push(t);
-            }
-        }
-        seqs.extend(next.iter().cloned());
-        layer = next;
+/// The history space, addressed by index without materialising it: for every length n in
+/// 0..=long_len, every sequence of n operations, every probe mask of the tier.
+pub struct Histories {
+    n_ops: u64,
+    full_len: u32,
+    long_len: u32,
+}
+
+impl Histories {
+    pub fn new(tier: Tier) -> Histories {
+        Histories { n_ops: op_alphabet().len() as u64, full_len: tier.pick(2, 3), long_len: tier.pick(3, 4) }
     }
-    for s in seqs {
-        let n = s.len();
-        if n <= full_len {
-            for mask in 0..(1u32 << n) {
-                v.push(History { ops: s.clone(), mask });
-            }
+    fn masks(&self, n: u32) -> Vec<u32> {
+        if n <= self.full_len {
+            (0..(1u32 << n)).collect()
         } else {
-            // longest histories: probe everywhere / only before and at the end / only at the end
-            for mask in [(1u32 << n) - 1, 1, 0, (1u32 << n) - 2] {
-                v.push(History { ops: s.clone(), mask });
-            }
+            // longest histories: probe everywhere / only before the first registration and at
+            // the end / only at the end / everywhere but before the first registration
+            vec![(1u32 << n) - 1, 1, 0, (1u32 << n) - 2]
         }
     }
-    v
+    fn block(&self, n: u32) -> u64 {
+        self.n_ops.pow(n) * self.masks(n).len() as u64
+    }
+    pub fn len(&self) -> u64 {
+        (0..=self.long_len).map(|n| self.block(n)).sum()
+    }
+    pub fn get(&self, mut i: u64) -> History {
+        let a = op_alphabet();
+        let mut n = 0u32;
+        while i >= self.block(n) {
+            i -= self.block(n);
+            n += 1;
+        }
+        let masks = self.masks(n);
+        let mask = masks[(i % masks.len() as u64) as usize];
+        let mut seq = i / masks.len() as u64;
+        let mut ops = Vec::new();
+        for _ in 0..n {
+            ops.push(a[(seq % self.n_ops) as usize].clone());
+            seq /= self.n_ops;
+        }
+        ops.reverse();
+        History { ops, mask }
+    }
 }
 
 // ---------------------------------------------------------------------------
@@ -424,7 +435,7 @@ impl Prop for C08 {
         "C08"
     }
     fn plan(&self, tier: Tier) -> Plan {
-        let nh = histories(tier).len() as u64;
+        let nh = Histories::new(tier).len();
         let nt = tables().len() as u64;
         Plan {
             stages: vec![
@@ -453,10 +464,10 @@ impl Prop for C08 {
     }
     fn run(&self, tier: Tier, stage: usize, a: u64, b: u64, out: &mut WorkerOut) {
         if stage == 0 {
-            let hs = histories(tier);
+            let hs = Histories::new(tier);
             for i in a..b {
-            out.idx = Some(i);
-                let h = &hs[i as usize];
+                out.idx = Some(i);
+                let h = &hs.get(i);
                 let text = h.text();
                 let mut world = World::builtin();
                 let mut after = "start".to_string();
@@ -499,7 +510,7 @@ impl Prop for C08 {
     }
     fn case_text(&self, tier: Tier, stage: usize, i: u64) -> String {
         if stage == 0 {
-            histories(tier)[i as usize].text()
+            Histories::new(tier).get(i).text()
         } else {
             format!("{:?}", tables()[i as usize].ops)
         }
